@@ -59,7 +59,7 @@ impl CodeGenerator {
 
     /// Returns a random boolean vector of given size and sparcity
     pub fn random_bool_vector(size: i32, sparsity: f32) -> Option<BoolVector> {
-        if size < 0 || sparsity < 0.0 || sparsity > 1.0 {
+        if size < 0 || !(sparsity >= 0.0 && sparsity <= 1.0) {
             None
         } else {
             let mut rng = rand::thread_rng();
